@@ -33,6 +33,8 @@ SPELL = {
     'xs:boolean': (['true', '1'], 'false', lambda s: s in ('true', '1')),
     'xs:string': (['a', 'a'], 'b', lambda s: s),
     'xs:QName': (['p:a', 'q:a'], 'p:b', lambda s: ({'p': 'urn:n', 'q': 'urn:n'}[s.split(':')[0]], s.split(':')[1])),
+    # the same type in a document whose DEFAULT namespace is urn:n: an unprefixed QName value takes it
+    'xs:QName/default': (['a', 'p:a'], 'b', lambda s: ('urn:n', s.split(':')[-1])),
 }
 OPTS = ['-', 'A0', 'A1', 'B']      # absent, A first spelling, A second spelling, B
 
@@ -51,6 +53,10 @@ def val_of(tp, opt):
 
 def schema_text(tps, where, nested):
     """tps: field types (1 or 2); where: 'attr' | 'elem' field placement; nested: scope is <sec>."""
+    qd = any('/default' in t for t in tps)      # target-namespace variant (documents use a default namespace)
+    px = 'n:' if qd else ''
+    tps = [t.split('/')[0] for t in tps]
+
     def row_decl(name):
         if where == 'attr':
             attrs = ''.join('<xs:attribute name="f%d" type="%s"/>' % (i, tp) for i, tp in enumerate(tps))
@@ -59,9 +65,10 @@ def schema_text(tps, where, nested):
         kids = ''.join('<xs:element name="f%d" type="%s" minOccurs="0"/>' % (i, tp) for i, tp in enumerate(tps))
         return ('<xs:element name="%s" minOccurs="0" maxOccurs="unbounded"><xs:complexType><xs:sequence>%s'
                 '</xs:sequence></xs:complexType></xs:element>' % (name, kids))
-    fields = ''.join('<xs:field xpath="%sf%d"/>' % ('@' if where == 'attr' else '', i) for i in range(len(tps)))
-    idc = ('<xs:key name="K"><xs:selector xpath="k"/>%s</xs:key><xs:keyref name="R" refer="K"><xs:selector '
-           'xpath="r"/>%s</xs:keyref><xs:unique name="U"><xs:selector xpath="u"/>%s</xs:unique>' % (fields, fields, fields))
+    fields = ''.join('<xs:field xpath="%sf%d"/>' % ('@' if where == 'attr' else px, i) for i in range(len(tps)))
+    idc = ('<xs:key name="K"><xs:selector xpath="%sk"/>%s</xs:key><xs:keyref name="R" refer="%sK"><xs:selector '
+           'xpath="%sr"/>%s</xs:keyref><xs:unique name="U"><xs:selector xpath="%su"/>%s</xs:unique>'
+           % (px, fields, px, px, fields, px, fields))
     rows = row_decl('k') + row_decl('r') + row_decl('u')
     if nested:
         body = ('<xs:element name="root"><xs:complexType><xs:sequence><xs:element name="sec" maxOccurs="unbounded">'
@@ -70,6 +77,9 @@ def schema_text(tps, where, nested):
     else:
         body = ('<xs:element name="root"><xs:complexType><xs:sequence>%s</xs:sequence></xs:complexType>%s'
                 '</xs:element>' % (rows, idc))
+    if qd:
+        return ('<xs:schema xmlns:xs="%s" xmlns:n="urn:n" targetNamespace="urn:n" elementFormDefault="qualified">%s'
+                '</xs:schema>' % (XS, body))
     return '<xs:schema xmlns:xs="%s">%s</xs:schema>' % (XS, body)
 
 
@@ -87,7 +97,7 @@ def doc_text(tps, where, nested, scopes):
         k, r, u = s
         return ''.join(row_xml('k', tps, where, x) for x in k) + ''.join(row_xml('r', tps, where, x) for x in r) + \
             ''.join(row_xml('u', tps, where, x) for x in u)
-    ns = ' xmlns:p="urn:n" xmlns:q="urn:n"'
+    ns = ' xmlns:p="urn:n" xmlns:q="urn:n"' + (' xmlns="urn:n"' if any('/default' in t for t in tps) else '')
     if nested:
         return '<root%s>%s</root>' % (ns, ''.join('<sec>%s</sec>' % sec(s) for s in scopes))
     return '<root%s>%s</root>' % (ns, sec(scopes[0]))
@@ -221,7 +231,7 @@ def judge_ids(ver, st):
 
 TEMPLATES = [(tps, where, nested)
              for tps in [(t,) for t in SPELL] + [('xs:decimal', 'xs:string'), ('xs:integer', 'xs:boolean'),
-                                                  ('xs:QName', 'xs:decimal')]
+                                                  ('xs:QName', 'xs:decimal'), ('xs:QName/default', 'xs:integer')]
              for where in ('attr', 'elem') for nested in (False, True)]
 
 
